@@ -74,8 +74,12 @@ fn zstd_source(_raw_stream: ByteStream, _data_size: ASize) -> Result<Arc<dyn Sou
 
 impl Cluster {
     fn build_plain_reader(&self) -> Result<()> {
+        #[cfg(jubako_verif)]
+        crate::verif::point(crate::verif::Event::BuildPlainBegin);
         let mut cluster_reader = self.reader.write().unwrap();
         if let ClusterReader::Plain(_) = *cluster_reader {
+            #[cfg(jubako_verif)]
+            crate::verif::point(crate::verif::Event::BuildPlainAlready);
             return Ok(());
         };
 
@@ -100,6 +104,8 @@ impl Cluster {
             CompressionType::None => unreachable!(),
         };
         *cluster_reader = ClusterReader::Plain(decompress_reader);
+        #[cfg(jubako_verif)]
+        crate::verif::point(crate::verif::Event::BuildPlainInstalled);
         Ok(())
     }
 
